@@ -251,12 +251,23 @@ func c17(run *core.Run, replay string) {
 		"run step by step against a reference state machine (healthy in-memory sink/source); final stream must decode to exactly the accepted bytes; " +
 		"non-trivial = program contains a Close followed by at least one more call, or a zero-length call, or a Writer closed without Write; distinct = distinct op sequence + config")
 	check := func(c *lcCase) {
-		var k, d string
-		if c.Side == "writer" {
-			k, d = runWriterProgram(c)
-		} else {
-			k, d = runReaderProgram(c)
+		if core.Hangs() >= 3 {
+			return
 		}
+		g, returned := guarded(func() kd {
+			if c.Side == "writer" {
+				k, d := runWriterProgram(c)
+				return kd{k, d, true}
+			}
+			k, d := runReaderProgram(c)
+			return kd{k, d, true}
+		})
+		if !returned {
+			run.Eval(1)
+			run.Violate("C17 "+c.Side+" hang", "the call program never returned (60 s, then 180 s)", c)
+			return
+		}
+		k, d := g.k, g.d
 		run.Eval(1)
 		sig := ""
 		closeSeen, after, zeroLen, writes := false, false, false, 0
